@@ -497,6 +497,11 @@ void DiffVisitor::bvisit(const Pow &self)
 {
     if (is_a_Number(*(self.get_exp()))) {
         apply(self.get_base());
+        if (eq(*result_, *zero)) {
+            // the base does not depend on x; do not multiply the zero by an
+            // exponent that may be nan or infinite (nan * 0 is nan)
+            return;
+        }
         result_ = mul(
             mul(self.get_exp(), pow(self.get_base(), sub(self.get_exp(), one))),
             result_);
